@@ -95,6 +95,84 @@ fn run_reader(rt: &tokio::runtime::Runtime, chunks: Vec<Vec<u8>>) -> Result<Vec<
     })
 }
 
+/// The real socket arms of the reader, without any hook: a loopback TCP connection (writer task sends one chunk,
+/// flushes and yields, so that on the current-thread runtime the reader usually sees the chunk boundaries; the
+/// connection is closed at the end, which ends the stream) ...
+fn run_reader_tcp(rt: &tokio::runtime::Runtime, chunks: Vec<Vec<u8>>) -> Option<Result<Vec<Vec<u8>>, (String, String)>> {
+    use tokio::io::AsyncWriteExt;
+    let setup = rt.block_on(async {
+        let l = tokio::net::TcpListener::bind("127.0.0.1:0").await.ok()?;
+        let addr = l.local_addr().ok()?;
+        let c = tokio::net::TcpStream::connect(addr).await.ok()?;
+        let (srv, _) = l.accept().await.ok()?;
+        Some((c, srv))
+    });
+    let (client, mut server) = setup?;
+    Some(guarded(|| {
+        rt.block_on(async {
+            let _ = server.set_nodelay(true);
+            let writer = tokio::spawn(async move {
+                for c in chunks {
+                    if server.write_all(&c).await.is_err() {
+                        break;
+                    }
+                    let _ = server.flush().await;
+                    for _ in 0..3 {
+                        tokio::task::yield_now().await;
+                    }
+                }
+                let _ = server.shutdown().await;
+            });
+            let s = next_msg(DataSource::Tcp(client)).await;
+            pin_mut!(s);
+            let mut out = vec![];
+            while let Some(m) = s.next().await {
+                out.push(m);
+                if out.len() > 10_000 {
+                    break;
+                }
+            }
+            let _ = writer.await;
+            out
+        })
+    }))
+}
+
+/// ... and loopback UDP, where every datagram is exactly one read. A UDP stream has no end: collection stops when
+/// nothing arrives for a while, so only the content of what was handed on is judged (never how much).
+fn run_reader_udp(rt: &tokio::runtime::Runtime, chunks: Vec<Vec<u8>>) -> Option<Result<Vec<Vec<u8>>, (String, String)>> {
+    let setup = rt.block_on(async {
+        let rx = tokio::net::UdpSocket::bind("127.0.0.1:0").await.ok()?;
+        let addr = rx.local_addr().ok()?;
+        let tx = tokio::net::UdpSocket::bind("127.0.0.1:0").await.ok()?;
+        Some((rx, tx, addr))
+    });
+    let (rx, tx, addr) = setup?;
+    Some(guarded(|| {
+        rt.block_on(async {
+            let writer = tokio::spawn(async move {
+                for c in chunks {
+                    let _ = tx.send_to(&c, addr).await;
+                    for _ in 0..3 {
+                        tokio::task::yield_now().await;
+                    }
+                }
+            });
+            let s = next_msg(DataSource::Udp(rx)).await;
+            pin_mut!(s);
+            let mut out = vec![];
+            while let Ok(Some(m)) = tokio::time::timeout(std::time::Duration::from_millis(150), s.next()).await {
+                out.push(m);
+                if out.len() > 10_000 {
+                    break;
+                }
+            }
+            let _ = writer.await;
+            out
+        })
+    }))
+}
+
 fn split(raw: &[u8], cuts: &[usize]) -> Vec<Vec<u8>> {
     let mut out = vec![];
     let mut prev = 0;
@@ -148,6 +226,12 @@ fn judge(r: &mut Report, case: &Case, cuts: &[usize], got: &Result<Vec<Vec<u8>>,
             r.violation(&format!("C09:not-a-prefix:{label}"), format!("stream {} cut at {:?}: reader yielded {what}", hexs(&case.raw), cuts), rp());
             return;
         }
+    }
+    if label.starts_with("udp") {
+        // no end of stream on UDP: how much was handed on before the collector gave up is not judged
+        r.class(if got.len() == case.expected.len() { "udp:complete" } else { "udp:partial(not judged)" });
+        r.class(label);
+        return;
     }
     // 2. only the tail inside the look-ahead may be pending
     let yielded = got.len();
@@ -263,7 +347,7 @@ fn exercise(r: &mut Report, rt: &tokio::runtime::Runtime, rng: &mut Rng, frames:
 }
 
 pub fn run(a: &Args, r: &mut Report) {
-    r.rule = "frame sequences of 1-8 Beast frames (0x31/0x32/0x33 and 0x34 which must be swallowed), 0x1A density 0-40 %, runs of 2-6 consecutive 0x1A, 0x1A as first/last byte of timestamp, signal and payload; chunkings: one piece, EVERY single cut and EVERY pair of cuts of each short stream (<= 80 raw bytes quick, <= 200 thorough), random multi-cut, 1-byte dribble, cuts before/between/after every escape pair of long streams (up to 3000 bytes, 1024-byte reads); delivered through hook H1 on a current-thread executor. distinct = distinct (stream, chunking) pairs with a correct result".into();
+    r.rule = "frame sequences of 1-8 Beast frames (0x31/0x32/0x33 and 0x34 which must be swallowed), 0x1A density 0-40 %, runs of 2-6 consecutive 0x1A, 0x1A as first/last byte of timestamp, signal and payload; chunkings: one piece, EVERY single cut and EVERY pair of cuts of each short stream (<= 80 raw bytes quick, <= 200 thorough), random multi-cut, 1-byte dribble, cuts before/between/after every escape pair of long streams (up to 3000 bytes, 1024-byte reads); delivered through hook H1 on a current-thread executor; in addition random chunkings through the real TCP and UDP arms over loopback sockets (no hook; UDP judged on content only). distinct = distinct (stream, chunking) pairs with a correct result".into();
     r.assumptions.push("a frame may stay pending while fewer than 23 bytes (one byte of slack per escape pair, for chunked deliveries) of the stream remain after the last frame handed on".into());
     let rt = tokio::runtime::Builder::new_current_thread().build().unwrap();
     if let Some(p) = &a.replay {
@@ -288,6 +372,65 @@ pub fn run(a: &Args, r: &mut Report) {
         exercise(r, &rt, &mut rng, &frames, true, if a.thorough() { 20_000 } else { 3_200 });
         if i < 2 {
             r.sample(json!({"stream": hexs(&frames.iter().flat_map(|f| f.raw.clone()).collect::<Vec<u8>>()), "frames": frames.len(), "chunkings": "one piece, all single cuts, all double cuts, 4 random multi-cuts, dribble"}));
+        }
+    }
+    // the real socket arms (no hook): loopback TCP and UDP
+    if !a.asan {
+        let rt_io = tokio::runtime::Builder::new_current_thread().enable_all().build().unwrap();
+        let ntcp = a.budget(1_600, 80_000);
+        let mut unavailable = false;
+        for i in 0..ntcp {
+            let frames = if i % 4 == 3 {
+                // long stream: several full 1024-byte reads
+                let mut v = vec![];
+                let mut total = 0;
+                let target = rng.range(1100, 5000) as usize;
+                let density = *rng.pick(&[0.0, 0.05, 0.3]);
+                while total < target {
+                    let kind = *rng.pick(&[0x31u8, 0x32, 0x33, 0x33, 0x34]);
+                    let f = gen_frame(&mut rng, density, kind);
+                    total += f.raw.len();
+                    v.push(f);
+                }
+                v
+            } else {
+                gen_stream(&mut rng, 400)
+            };
+            let mut raw = vec![];
+            let mut frame_end = vec![];
+            for f in &frames {
+                raw.extend_from_slice(&f.raw);
+                frame_end.push(raw.len());
+            }
+            let expected: Vec<&[u8]> = frames.iter().filter(|f| f.kind != 0x34).map(|f| f.plain.as_slice()).collect();
+            let case = Case { frames: &frames, raw: raw.clone(), expected, frame_end };
+            let coarse = run_reader(&rt, split(&raw, &[]));
+            let n = raw.len();
+            let k = rng.range(0, 6) as usize;
+            let mut cuts: Vec<usize> = (0..k).map(|_| rng.range(1, (n as i64 - 1).max(1)) as usize).collect();
+            if i % 8 == 0 {
+                cuts = (1..n).collect();
+            }
+            if i % 8 == 3 {
+                cuts.clear(); // one write: the reader's own 1024-byte reads cut the stream
+            }
+            cuts.sort();
+            cuts.dedup();
+            match run_reader_tcp(&rt_io, split(&raw, &cuts)) {
+                None => {
+                    unavailable = true;
+                    break;
+                }
+                Some(got) => judge(r, &case, &cuts, &got, coarse.as_ref().ok(), "tcp-loopback(real socket arm)"),
+            }
+            if i % 16 == 0 {
+                if let Some(got) = run_reader_udp(&rt_io, split(&raw, &cuts)) {
+                    judge(r, &case, &cuts, &got, None, "udp-loopback(real socket arm)");
+                }
+            }
+        }
+        if unavailable {
+            r.class("sockets:loopback-unavailable(socket arms not exercised)");
         }
     }
     // long streams: more than one 1024-byte read, targeted cuts only
